@@ -280,12 +280,21 @@ def run(tier, seed):
                        "assumes of a block entered by a goto) stops and nothing more is claimed for that pair; a branch whose outcomes "
                        "are not mutually exclusive for the pair, or whose block cannot reach the exit block: no claim",
                        "values -%d..%d at the start and for havoc" % (BOX, BOX)]
+    # (3) the graph algorithms underneath: dominance / post-dominance / control dependence graph (crawler), SCC graph and
+    # (weak) topological orders (kill-gen iterator): spec/GraphAlgos.tla, exhaustive for n <= 3 (<= 4 thorough) + random graphs
+    from checks import graphs
+    graphs.phase(ck, tier)
     return ck.finish()
 
 
 def replay(path):
     case = json.load(open(path))["case"]
     ck = Check("C18", "quick", 0)
+    if str(case.get("kind", "")).startswith("graphs"):
+        from checks import graphs
+        if graphs.replay(case):
+            ck.violation("replayed: graph algorithm differs from spec/GraphAlgos.tla", case)
+        return ck.finish()
     build("dataflow_runner")
     if case.get("half") == "crawler":
         v, _, _ = explore_crawl(ck, "replay", [case["program"]])
